@@ -1,0 +1,41 @@
+//go:build verif
+
+package kernel
+
+import (
+	"github.com/MixinNetwork/mixin/crypto"
+	"github.com/MixinNetwork/mixin/kernel/internal"
+	"github.com/MixinNetwork/mixin/p2p"
+)
+
+// Verification hooks for property C31 (every built message fits the transport limit).
+// Compiled only with -tags verif.
+
+// VerifAttachPeer gives the node an unconnected p2p.Peer (what addRelayersFromConfig
+// creates first), so that the real send path can run without any network.
+func (node *Node) VerifAttachPeer() *p2p.Peer {
+	node.Peer = p2p.NewPeer(node, node.IdForNetwork, ":0", false)
+	return node.Peer
+}
+
+// VerifPopAndProcessCacheQueue runs one pass of the proposal batcher.
+func (node *Node) VerifPopAndProcessCacheQueue() int {
+	return node.popAndProcessCacheQueue()
+}
+
+// VerifWorkingAcceptedNodes lists the ids popAndProcessCacheQueue may send to.
+func (node *Node) VerifWorkingAcceptedNodes(timestamp uint64) []crypto.Hash {
+	var ids []crypto.Hash
+	for _, cn := range node.ListWorkingAcceptedNodes(timestamp) {
+		ids = append(ids, cn.IdForNetwork)
+	}
+	return ids
+}
+
+// VerifMockRunAggregators toggles the test switch that keeps BootChain from starting the
+// per-chain background loops; returns the previous value.
+func VerifMockRunAggregators(mock bool) bool {
+	old := internal.MockRunAggregators()
+	internal.ToggleMockRunAggregators(mock)
+	return old
+}
